@@ -55,7 +55,7 @@ MkCase(sh, g, a, fo, po, ao, to, bo) ==
 Cases == { MkCase(sh, g, a, c[1], c[2], 1, 1, 1) : sh \in ShellsL, g \in GeosL, a \in AnglesL, c \in Combo }
          \cup { MkCase(sh, g, a, fp[1], fp[2], t[1], t[2], t[3]) :
                   sh \in ShellsL, g \in GeosL, a \in AnglesL, t \in ABT,
-                  fp \in IF Tier = "quick" THEN {<<2,2>>} ELSE {<<1,1>>, <<4,4>>} }
+                  fp \in IF Tier = "quick" THEN {<<2,2>>} ELSE {<<4,4>>} }
 
 Req(inc) == [sh |-> shell, geo |-> obj.geo, ang |-> obj.ang, Fc |-> obj.Fc, nxxIn |-> obj.nxxIn, xiLA |-> obj.xiLA,
              pdC |-> obj.pdC, pdT |-> obj.pdT, uTM |-> obj.uTM, thetaTdeg |-> obj.thetaTdeg, tanBeta |-> obj.tanBeta,
